@@ -236,3 +236,173 @@ theorem maybeEnqueue_oldest_shed (w : W) (j : Job) (L : Nat) (hd : w.disc = some
   exact ⟨shed, h2, by rw [h3]; simp only [hh]⟩
 
 end Factory
+
+namespace Factory
+
+/-! ### worker queues: `enqueue_job` -/
+
+theorem getNextNonExpired_length (mq : List Job) (pend : List Nat) (e : Env) :
+    (getNextNonExpired mq pend e).2.1.length + (getNextNonExpired mq pend e).1.toList.length ≤ mq.length := by
+  induction mq generalizing pend e with
+  | nil => simp [getNextNonExpired]
+  | cons j rest ih =>
+    unfold getNextNonExpired
+    split
+    · simp
+    · have := ih (pend.erase j.key) (e.discard .ttlExpired j)
+      simp only [List.length_cons]; omega
+
+theorem getNextNonExpired_actors (mq : List Job) (pend : List Nat) (e : Env) :
+    (getNextNonExpired mq pend e).2.2.2.actors = e.actors := by
+  induction mq generalizing pend e with
+  | nil => rfl
+  | cons j rest ih =>
+    unfold getNextNonExpired
+    split
+    · rfl
+    · rw [ih]; rfl
+
+theorem getNext_length (p : WP) (e : Env) :
+    (p.getNext e).2.1.mq.length + (p.getNext e).1.toList.length ≤ p.mq.length :=
+  getNextNonExpired_length p.mq p.pending e
+
+theorem getNext_actors (p : WP) (e : Env) : (p.getNext e).2.2.actors = e.actors :=
+  getNextNonExpired_actors p.mq p.pending e
+
+theorem getNext_actor (p : WP) (e : Env) : (p.getNext e).2.1.actor = p.actor := rfl
+theorem getNext_disc (p : WP) (e : Env) : (p.getNext e).2.1.disc = p.disc := rfl
+theorem getNext_curr (p : WP) (e : Env) : (p.getNext e).2.1.curr = p.curr := rfl
+
+/-- the worker's actor is open: a hand-over to it succeeds -/
+def ActorOpen (e : Env) (aid : Nat) : Prop := ∃ a, e.getActor aid = some a ∧ a.alive = true
+
+theorem ActorOpen.of_actors {e e' : Env} {aid : Nat} (h : ActorOpen e aid) (ha : e'.actors = e.actors) :
+    ActorOpen e' aid := by
+  obtain ⟨a, h1, h2⟩ := h
+  exact ⟨a, by simpa [Env.getActor, ha] using h1, h2⟩
+
+/-- a successful hand-over leaves the worker's queue as it was -/
+theorem dispatchJob_open_mq (p : WP) (e : Env) (j : Job) (h : ActorOpen e p.actor) :
+    (p.dispatchJob e j).1.mq = p.mq := by
+  obtain ⟨a, h1, h2⟩ := h
+  unfold WP.dispatchJob Env.cast
+  simp [h1, h2]
+
+theorem getNextNonExpired_none_nil (mq : List Job) (pend : List Nat) (e : Env)
+    (h : (getNextNonExpired mq pend e).1 = none) : (getNextNonExpired mq pend e).2.1 = [] := by
+  induction mq generalizing pend e with
+  | nil => rfl
+  | cons j rest ih =>
+    unfold getNextNonExpired at h ⊢
+    split
+    · rename_i hne; simp [hne] at h
+    · rename_i hne
+      simp only [hne] at h
+      exact ih _ _ h
+
+theorem shedOldest_length (limit fuel : Nat) (p : WP) (e : Env) (hf : p.mq.length ≤ limit + fuel) :
+    (shedOldest limit fuel p e).1.mq.length ≤ limit := by
+  induction fuel generalizing p e with
+  | zero => simpa [shedOldest] using hf
+  | succ fuel ih =>
+    unfold shedOldest
+    split
+    · rename_i hgt
+      have hl := getNext_length p e
+      cases hn : p.getNext e with
+      | mk r pe =>
+        obtain ⟨p', e'⟩ := pe
+        rw [hn] at hl
+        cases r with
+        | none =>
+          -- nothing returned: every queued job had expired and the queue is now empty
+          simp only
+          apply ih
+          have : p'.mq = [] := by
+            have h1 : (p.getNext e).1 = none := by rw [hn]
+            have h2 : (p.getNext e).2.1.mq = p'.mq := by rw [hn]
+            rw [← h2]
+            exact getNextNonExpired_none_nil p.mq p.pending e h1
+          rw [this]; simp
+        | some d =>
+          simp only
+          apply ih
+          simp only [Option.toList_some, List.length_cons, List.length_nil] at hl
+          show p'.mq.length ≤ limit + fuel
+          omega
+    · simp only; omega
+
+/-- (C15 limit, worker queues) `enqueue_job` never grows a worker's queue beyond
+`max L lenBefore`, in both modes, for every `L` including 0 — provided the hand-over to the
+worker's actor succeeds (the actor is open, which holds at every message boundary of the
+factory: supervision events outrank messages). -/
+theorem enqueueJob_length (p : WP) (e : Env) (j : Job) (L : Nat) (m : Mode) (hd : p.disc = some (L, m))
+    (hopen : ActorOpen e p.actor) :
+    (p.enqueueJob e j).1.mq.length ≤ max L p.mq.length := by
+  unfold WP.enqueueJob
+  split
+  · simp only; omega
+  · rename_i hns
+    have hopen' : ActorOpen (e.accept j) p.actor :=
+      hopen.of_actors (by unfold Env.accept Env.emit; split <;> rfl)
+    unfold WP.enqueueAccepted
+    split
+    · -- nothing in flight
+      have hl := getNext_length (p.track j.key) (e.accept j)
+      have ha := getNext_actors (p.track j.key) (e.accept j)
+      have hact := getNext_actor (p.track j.key) (e.accept j)
+      cases hn : (p.track j.key).getNext (e.accept j) with
+      | mk r pe =>
+        obtain ⟨p', e'⟩ := pe
+        rw [hn] at hl ha hact
+        simp only at hl ha hact
+        have hopen2 : ActorOpen e' p'.actor := by
+          rw [hact]; exact hopen'.of_actors ha
+        cases r with
+        | none =>
+          simp only
+          rw [dispatchJob_open_mq _ _ _ hopen2]
+          simp only [WP.track] at hl; omega
+        | some older =>
+          simp only
+          rw [dispatchJob_open_mq _ _ _ (by exact hopen2)]
+          simp only [WP.track, Option.toList_some, List.length_cons, List.length_nil, List.length_append] at hl ⊢
+          omega
+    · rename_i hcurr
+      simp only
+      have hdisc : (p.track j.key).disc = some (L, m) := hd
+      cases m with
+      | oldest =>
+        simp only [hdisc]
+        exact Nat.le_trans (shedOldest_length L _ _ _ (by simp only; omega)) (Nat.le_max_left _ _)
+      | newest =>
+        simp only [hdisc]
+        -- not shed: the worker is busy, so the queue was below the limit
+        have hlt : p.mq.length < L := by
+          unfold WP.shedsNewest at hns
+          simp only [hd] at hns
+          have hbusy : p.isAvailable = false := by
+            unfold WP.isAvailable
+            have : p.curr.isEmpty = false := by simpa [WP.track] using hcurr
+            simp [this]
+          simpa [hbusy] using hns
+        simp only [WP.track, List.length_append, List.length_cons, List.length_nil]
+        omega
+
+/-- Oldest, a job already in flight: the queue ends within `L` (it is trimmed even when it was longer) -/
+theorem enqueueJob_oldest_le (p : WP) (e : Env) (j : Job) (L : Nat) (hd : p.disc = some (L, .oldest))
+    (hbusy : p.curr ≠ []) : (p.enqueueJob e j).1.mq.length ≤ L := by
+  unfold WP.enqueueJob
+  have hns : p.shedsNewest = false := by unfold WP.shedsNewest; simp [hd]
+  simp only [hns, Bool.false_eq_true, if_false]
+  unfold WP.enqueueAccepted
+  have hc : (p.track j.key).curr.isEmpty = false := by
+    simp only [WP.track]; cases h : p.curr with
+    | nil => exact absurd h hbusy
+    | cons _ _ => rfl
+  simp only [hc, Bool.false_eq_true, if_false]
+  have hdisc : (p.track j.key).disc = some (L, .oldest) := hd
+  simp only [hdisc]
+  exact shedOldest_length L _ _ _ (by simp only; omega)
+
+end Factory
